@@ -23,9 +23,15 @@ type avInt struct {
 	signed bool
 }
 
+type avF struct { // float32 value: its IEEE bits when they are a plain copy of a source
+	bv   BV
+	name string
+}
+
 type avBool struct {
 	known bool
 	val   bool
+	bitv  *bit // the boolean equals this source bit
 	// when unknown: either a linear relation (a op b) or an opaque condition text
 	a, b *Lin
 	op   string
@@ -61,6 +67,10 @@ type avElem struct { // address of slice element
 	idx *Lin
 }
 
+type avAgg struct { // a whole array or struct value: its elements by selector suffix ("[0]", ".F")
+	elems map[string]AV
+}
+
 type avTuple []AV
 
 type avOpaque struct{ desc string }
@@ -83,13 +93,17 @@ type lpath struct {
 	mem    map[string]AV
 	writes []bufWrite
 	ret    AV
+	assume map[string]bool // source bits pinned by the branches taken ("src#idx" -> value)
 	notes  []string // things the interpreter could not model (make the path undecided)
 	effect []string // stores through the receiver etc.
 	nfresh int
 }
 
 func (s *lpath) clone() *lpath {
-	o := &lpath{env: s.env.clone(), conds: append([]string{}, s.conds...), vals: map[ssa.Value]AV{}, mem: map[string]AV{}, writes: append([]bufWrite{}, s.writes...), notes: append([]string{}, s.notes...), effect: append([]string{}, s.effect...), nfresh: s.nfresh}
+	o := &lpath{env: s.env.clone(), conds: append([]string{}, s.conds...), vals: map[ssa.Value]AV{}, mem: map[string]AV{}, writes: append([]bufWrite{}, s.writes...), notes: append([]string{}, s.notes...), effect: append([]string{}, s.effect...), nfresh: s.nfresh, assume: map[string]bool{}}
+	for k, v := range s.assume {
+		o.assume[k] = v
+	}
 	for k, v := range s.vals {
 		o.vals[k] = v
 	}
@@ -105,6 +119,7 @@ type layoutInterp struct {
 	depth    int
 	// rootName: name used for the receiver (parameter 0) in access paths
 	results []*lpath
+	act     int // activation id: local cells of different calls of one function are distinct
 }
 
 const staleSrc = "STALE"
@@ -202,6 +217,11 @@ func describeAV(v AV) string {
 		return x.cond
 	case avOpaque:
 		return x.desc
+	case avF:
+		if x.bv != nil {
+			return "float(" + x.bv.String() + ")"
+		}
+		return "float " + x.name
 	}
 	return fmt.Sprintf("%T", v)
 }
@@ -218,7 +238,7 @@ func newInt(lin *Lin, w int, signed bool, name string) avInt {
 func (li *layoutInterp) run(fn *ssa.Function, args []AV, base *lpath) []*lpath {
 	st := base
 	if st == nil {
-		st = &lpath{env: Env{}, vals: map[ssa.Value]AV{}, mem: map[string]AV{}}
+		st = &lpath{env: Env{}, vals: map[ssa.Value]AV{}, mem: map[string]AV{}, assume: map[string]bool{}}
 	}
 	for i, prm := range fn.Params {
 		if i < len(args) {
@@ -244,6 +264,9 @@ func (li *layoutInterp) valueOfPath(path string, t types.Type) AV {
 		if w, signed, ok := typeWidth(t, li.p.Arch); ok {
 			return avInt{bv: bvSrc(path, w), signed: signed}
 		}
+		if u.Kind() == types.Float32 {
+			return avF{bv: bvSrc(path, 32), name: path}
+		}
 		return avOpaque{path}
 	case *types.Slice:
 		return avSlice{region: "f:" + path, off: linConst(0), len: linSym("len(" + path + ")"), name: path}
@@ -257,7 +280,15 @@ func (li *layoutInterp) valueOfPath(path string, t types.Type) AV {
 	return avPath{path: path, typ: t}
 }
 
-func cellKey(a *ssa.Alloc) string { return fmt.Sprintf("c%p", a) }
+var activationCounter int
+
+func (li *layoutInterp) cellKey(a *ssa.Alloc) string {
+	if li.act == 0 {
+		activationCounter++
+		li.act = activationCounter
+	}
+	return fmt.Sprintf("c%p@%d", a, li.act)
+}
 
 func (li *layoutInterp) walk(fn *ssa.Function, b, from *ssa.BasicBlock, st *lpath, visits map[*ssa.BasicBlock]int, out *[]*lpath) {
 	if len(*out) >= 64 {
@@ -315,6 +346,15 @@ func (li *layoutInterp) walk(fn *ssa.Function, b, from *ssa.BasicBlock, st *lpat
 					sign := "+"
 					if pol == 1 {
 						sign = "-"
+					}
+					if c.bitv != nil {
+						// the condition is one source bit: pin it
+						key := fmt.Sprintf("%s#%d", c.bitv.Src, c.bitv.Idx)
+						want := (pol == 0) == (c.bitv.K == bsrc)
+						if prev, has := ns.assume[key]; has && prev != want {
+							continue
+						}
+						ns.assume[key] = want
 					}
 					// contradiction with an earlier choice on the same condition
 					contra := false
@@ -478,7 +518,7 @@ func (li *layoutInterp) eval(st *lpath, v ssa.Value) AV {
 func (li *layoutInterp) exec(fn *ssa.Function, st *lpath, in ssa.Instruction) []*lpath {
 	switch x := in.(type) {
 	case *ssa.Alloc:
-		st.vals[x] = avAddr{cell: cellKey(x), typ: deref(x.Type())}
+		st.vals[x] = avAddr{cell: li.cellKey(x), typ: deref(x.Type())}
 	case *ssa.DebugRef:
 	case *ssa.FieldAddr:
 		base := li.eval(st, x.X)
@@ -499,7 +539,11 @@ func (li *layoutInterp) exec(fn *ssa.Function, st *lpath, in ssa.Instruction) []
 		base := li.eval(st, x.X)
 		f := structField(x.X.Type(), x.Field)
 		if a, ok := base.(avPath); ok {
-			st.vals[x] = li.valueOfPath(a.path+"."+f.Name(), f.Type())
+			if v, ok := st.mem["out:"+a.path+"."+f.Name()]; ok {
+				st.vals[x] = v
+			} else {
+				st.vals[x] = li.valueOfPath(a.path+"."+f.Name(), f.Type())
+			}
 		} else {
 			st.vals[x] = li.valueOfPath(describeAV(base)+"."+f.Name(), f.Type())
 		}
@@ -531,13 +575,36 @@ func (li *layoutInterp) exec(fn *ssa.Function, st *lpath, in ssa.Instruction) []
 	case *ssa.Store:
 		addr := li.eval(st, x.Addr)
 		val := li.eval(st, x.Val)
+		if ag, isAgg := val.(avAgg); isAgg {
+			switch a := addr.(type) {
+			case avAddr:
+				base := a.cell
+				if base == "" {
+					base = "out:" + a.path
+					st.effect = append(st.effect, "store to "+a.path+" at "+li.p.InstrPos(x))
+				}
+				for sfx, v := range ag.elems {
+					st.mem[base+sfx] = v
+				}
+			case avPath:
+				st.effect = append(st.effect, "store to "+a.path+" at "+li.p.InstrPos(x))
+				for sfx, v := range ag.elems {
+					st.mem["out:"+a.path+sfx] = v
+				}
+			}
+			break
+		}
 		switch a := addr.(type) {
 		case avAddr:
 			if a.cell != "" {
 				st.mem[a.cell] = val
 			} else {
 				st.effect = append(st.effect, "store to "+a.path+" at "+li.p.InstrPos(x))
+				st.mem["out:"+a.path] = val
 			}
+		case avPath:
+			st.effect = append(st.effect, "store to "+a.path+" at "+li.p.InstrPos(x))
+			st.mem["out:"+a.path] = val
 		case avElem:
 			if a.s.region == "buf" {
 				iv, _ := val.(avInt)
@@ -558,13 +625,32 @@ func (li *layoutInterp) exec(fn *ssa.Function, st *lpath, in ssa.Instruction) []
 				st.writes = append(st.writes, bufWrite{off: off, n: linConst(1), kind: "byte", bv: bv.resize(8, false), lin: blin, pos: x.Pos()})
 			} else if strings.HasPrefix(a.s.region, "f:") {
 				st.effect = append(st.effect, "store into "+a.s.region+" at "+li.p.InstrPos(x))
+			} else if key, ok := elemKey(a.s, a.idx); ok {
+				st.mem[key] = val
+			} else {
+				st.notes = append(st.notes, "store into a temporary at a non-constant index, "+li.p.InstrPos(x))
 			}
-			// fresh / array regions: content not tracked
 		}
 	case *ssa.Convert:
 		v := li.eval(st, x.X)
 		w, signed, ok := typeWidth(x.Type(), li.p.Arch)
 		iv, isInt := v.(avInt)
+		if fv, isF := v.(avF); isF {
+			if b, isB := x.Type().Underlying().(*types.Basic); isB && b.Kind() == types.Float32 {
+				st.vals[x] = fv // float32 <-> named float32
+			} else if ok {
+				st.vals[x] = avInt{bv: bvTop(w), signed: signed} // float -> integer: numeric, not a bit copy
+			} else {
+				st.vals[x] = avF{name: "converted"}
+			}
+			break
+		}
+		if isInt && !ok {
+			if b, isB := x.Type().Underlying().(*types.Basic); isB && b.Info()&types.IsFloat != 0 {
+				st.vals[x] = avF{name: "from integer"}
+				break
+			}
+		}
 		if !ok || !isInt {
 			if isInt && !ok {
 				st.vals[x] = avOpaque{"convert"}
@@ -651,7 +737,25 @@ func (li *layoutInterp) execUnOp(st *lpath, x *ssa.UnOp) {
 					rest := a.cell[i:]
 					key = key[:i]
 					if base, ok := st.mem[key].(avPath); ok {
-						st.vals[x] = li.valueOfPath(base.path+rest, x.Type())
+						if v, has := st.mem["out:"+base.path+rest]; has {
+							st.vals[x] = v
+						} else {
+							st.vals[x] = li.valueOfPath(base.path+rest, x.Type())
+						}
+						return
+					}
+				}
+				// a whole array / struct built element by element in this cell
+				switch x.Type().Underlying().(type) {
+				case *types.Array, *types.Struct:
+					ag := avAgg{elems: map[string]AV{}}
+					for k, v := range st.mem {
+						if strings.HasPrefix(k, a.cell) && len(k) > len(a.cell) && (k[len(a.cell)] == '[' || k[len(a.cell)] == '.') {
+							ag.elems[k[len(a.cell):]] = v
+						}
+					}
+					if len(ag.elems) > 0 {
+						st.vals[x] = ag
 						return
 					}
 				}
@@ -668,6 +772,10 @@ func (li *layoutInterp) execUnOp(st *lpath, x *ssa.UnOp) {
 					}
 				}
 			}
+			if v, ok := st.mem["out:"+a.path]; ok {
+				st.vals[x] = v
+				return
+			}
 			st.vals[x] = li.valueOfPath(a.path, x.Type())
 		case avElem:
 			if a.s.region == "buf" {
@@ -675,6 +783,16 @@ func (li *layoutInterp) execUnOp(st *lpath, x *ssa.UnOp) {
 				bv, lin := li.readByte(st, off)
 				st.vals[x] = avInt{bv: bv, lin: lin}
 				return
+			}
+			if key, ok := elemKey(a.s, a.idx); ok {
+				if v, has := st.mem[key]; has {
+					st.vals[x] = v
+					return
+				}
+				if strings.HasPrefix(a.s.region, "fresh#") || (strings.HasPrefix(a.s.region, "arr:c") && !strings.Contains(a.s.region, "r.")) {
+					st.vals[x] = avInt{lin: linConst(0), bv: bvConst(0, 8)}
+					return
+				}
 			}
 			nm := a.s.name
 			if nm == "" {
@@ -684,8 +802,21 @@ func (li *layoutInterp) execUnOp(st *lpath, x *ssa.UnOp) {
 			if a.idx != nil {
 				idx = a.s.off.Add(a.idx).String()
 			}
-			st.vals[x] = avInt{bv: bvSrc(nm+"["+idx+"]", 8)}
+			res := avInt{bv: bvSrc(nm+"["+idx+"]", 8)}
+			if a.s.region == "in" && a.idx != nil {
+				// an input byte is also a number in 0..255
+				sym := nm + "[" + idx + "]"
+				if _, has := st.env[sym]; !has {
+					st.env[sym] = iv{0, 255}
+				}
+				res.lin = linSym(sym)
+			}
+			st.vals[x] = res
 		case avPath:
+			if v, ok := st.mem["out:"+a.path]; ok {
+				st.vals[x] = v
+				return
+			}
 			st.vals[x] = li.valueOfPath(a.path, x.Type())
 		default:
 			st.vals[x] = avOpaque{"load"}
@@ -694,6 +825,9 @@ func (li *layoutInterp) execUnOp(st *lpath, x *ssa.UnOp) {
 		b, _ := li.eval(st, x.X).(avBool)
 		if b.known {
 			st.vals[x] = avBool{known: true, val: !b.val}
+		} else if b.bitv != nil {
+			nb := bitNot(*b.bitv)
+			st.vals[x] = avBool{bitv: &nb, cond: nb.String()}
 		} else if b.a != nil {
 			st.vals[x] = avBool{a: b.a, b: b.b, op: negRel(b.op)}
 		} else {
@@ -827,6 +961,14 @@ func (li *layoutInterp) execBinOp(st *lpath, x *ssa.BinOp) {
 	li1, ok1 := l.(avInt)
 	ri1, ok2 := r.(avInt)
 	if rel := relOf(x.Op); rel != "" {
+		if rel == "==" || rel == "!=" {
+			nl, nr := nilness(l), nilness(r)
+			if nl >= 0 && nr >= 0 && (nl == 1 || nr == 1) {
+				eq := nl == 1 && nr == 1
+				st.vals[x] = avBool{known: true, val: eq == (rel == "==")}
+				return
+			}
+		}
 		if ok1 && ok2 && li1.lin != nil && ri1.lin != nil {
 			c := st.env.cmp3(li1.lin, ri1.lin)
 			if c != 2 {
@@ -881,6 +1023,38 @@ func (li *layoutInterp) execBinOp(st *lpath, x *ssa.BinOp) {
 				st.vals[x] = avBool{known: true, val: (ka == kb) == (rel == "==")}
 				return
 			}
+			if (rel == "==" || rel == "!=") && len(li1.bv) > 0 && len(ri1.bv) > 0 {
+				op := token.EQL
+				if rel == "!=" {
+					op = token.NEQ
+				}
+				w := len(li1.bv)
+				if len(ri1.bv) > w {
+					w = len(ri1.bv)
+				}
+				// reuse the bit-provenance comparison: (x & m) == m for a one-bit mask is that bit
+				ev := &BitEval{P: li.p, Env: map[ssa.Value]BV{x.X: li1.bv.resize(w, false), x.Y: ri1.bv.resize(w, false)}}
+				_ = op
+				if alts := ev.binop(x, 1, false); len(alts) == 1 && len(alts[0].V) == 1 {
+					rb := alts[0].V[0]
+					switch rb.K {
+					case b0:
+						st.vals[x] = avBool{known: true, val: false}
+						return
+					case b1:
+						st.vals[x] = avBool{known: true, val: true}
+						return
+					case bsrc, bnot:
+						// apply what earlier branches pinned
+						if v, has := st.assume[fmt.Sprintf("%s#%d", rb.Src, rb.Idx)]; has {
+							st.vals[x] = avBool{known: true, val: v == (rb.K == bsrc)}
+							return
+						}
+						st.vals[x] = avBool{bitv: &rb, cond: rb.String()}
+						return
+					}
+				}
+			}
 			st.vals[x] = avBool{cond: fmt.Sprintf("%s %s %s", li1.bv, rel, ri1.bv)}
 			return
 		}
@@ -888,6 +1062,10 @@ func (li *layoutInterp) execBinOp(st *lpath, x *ssa.BinOp) {
 		return
 	}
 	if !ok1 || !ok2 {
+		if b, isB := x.Type().Underlying().(*types.Basic); isB && b.Info()&types.IsFloat != 0 {
+			st.vals[x] = avF{name: "arith"}
+			return
+		}
 		st.vals[x] = avOpaque{"binop"}
 		return
 	}
@@ -1074,7 +1252,29 @@ func (li *layoutInterp) execCall(fn *ssa.Function, st *lpath, call *ssa.Call) []
 				li.addWrite(st, dst.off, n, "seg", src.name, pos)
 			}
 			st.vals[call] = newInt(n, w, true, "copied")
-		case "append", "cap":
+		case "append":
+			// append(small tracked slice, items...) -> a fresh slice with known content
+			base, okb := li.eval(st, cc.Args[0]).(avSlice)
+			items, oki := li.varargs(st, cc.Args[1])
+			n0, okn := int64(0), false
+			if okb && base.len != nil {
+				n0, okn = base.len.IsConst()
+			}
+			if !okb || !oki || !okn || n0 > 32 || base.region == "buf" {
+				st.vals[call] = avOpaque{bn}
+				break
+			}
+			st.nfresh++
+			res := avSlice{region: fmt.Sprintf("fresh#%d", st.nfresh), off: linConst(0), len: linConst(n0 + int64(len(items))), name: "appended"}
+			for i := int64(0); i < n0; i++ {
+				bv := li.readElem(st, base, linConst(i))
+				st.mem[fmt.Sprintf("%s[%d]", res.region, i)] = avInt{bv: bv}
+			}
+			for i, it := range items {
+				st.mem[fmt.Sprintf("%s[%d]", res.region, n0+int64(i))] = it
+			}
+			st.vals[call] = res
+		case "cap":
 			st.vals[call] = avOpaque{bn}
 		default:
 			st.vals[call] = avOpaque{bn}
@@ -1116,7 +1316,70 @@ func (li *layoutInterp) execCall(fn *ssa.Function, st *lpath, call *ssa.Call) []
 		st.notes = append(st.notes, "dynamic call at "+li.p.InstrPos(call))
 		return nil
 	}
+	switch callee.String() {
+	case "(encoding/binary.bigEndian).PutUint16", "(encoding/binary.bigEndian).PutUint32":
+		n := 2
+		if strings.HasSuffix(callee.String(), "32") {
+			n = 4
+		}
+		dst, okd := li.eval(st, cc.Args[len(cc.Args)-2]).(avSlice)
+		v, _ := li.eval(st, cc.Args[len(cc.Args)-1]).(avInt)
+		bv := v.bv
+		if bv == nil {
+			bv = bvTop(8 * n)
+		}
+		bv = bv.resize(8*n, false)
+		if !okd {
+			st.notes = append(st.notes, "big-endian store into an unknown slice at "+li.p.InstrPos(call))
+			return nil
+		}
+		for i := 0; i < n; i++ {
+			lo := 8 * (n - 1 - i)
+			b := avInt{bv: bv[lo : lo+8]}
+			if dst.region == "buf" {
+				st.writes = append(st.writes, bufWrite{off: dst.off.Add(linConst(int64(i))), n: linConst(1), kind: "byte", bv: b.bv, pos: pos})
+			} else if key, ok := elemKey(dst, linConst(int64(i))); ok {
+				st.mem[key] = b
+			}
+		}
+		return nil
+	case "(encoding/binary.bigEndian).Uint16", "(encoding/binary.bigEndian).Uint32":
+		n := 2
+		if strings.HasSuffix(callee.String(), "32") {
+			n = 4
+		}
+		src, oks := li.eval(st, cc.Args[len(cc.Args)-1]).(avSlice)
+		out := make(BV, 8*n)
+		for i := 0; i < n && oks; i++ {
+			b := li.readElem(st, src, linConst(int64(i)))
+			lo := 8 * (n - 1 - i)
+			copy(out[lo:lo+8], b.resize(8, false))
+		}
+		if !oks {
+			out = bvTop(8 * n)
+		}
+		st.vals[call] = avInt{bv: out}
+		return nil
+	case "math.Float32bits":
+		if f, ok := li.eval(st, cc.Args[0]).(avF); ok && f.bv != nil {
+			st.vals[call] = avInt{bv: f.bv}
+		} else {
+			st.vals[call] = avInt{bv: bvTop(32)}
+		}
+		return nil
+	case "math.Float32frombits":
+		if u, ok := li.eval(st, cc.Args[0]).(avInt); ok {
+			st.vals[call] = avF{bv: u.bv.resize(32, false), name: "frombits"}
+		} else {
+			st.vals[call] = avF{name: "frombits"}
+		}
+		return nil
+	}
 	if !li.p.InModule(callee) {
+		if b, isB := call.Type().Underlying().(*types.Basic); isB && b.Info()&types.IsFloat != 0 {
+			st.vals[call] = avF{name: callee.Name() + "()"}
+			return nil
+		}
 		if w, _, ok := typeWidth(call.Type(), li.p.Arch); ok {
 			st.vals[call] = avInt{bv: bvSrc(callee.Name()+"()", w)}
 		} else {
@@ -1207,11 +1470,20 @@ func (li *layoutInterp) execCall(fn *ssa.Function, st *lpath, call *ssa.Call) []
 			args = append(args, li.eval(st, a))
 		}
 		sub := &layoutInterp{p: li.p, depth: li.depth + 1}
-		base := &lpath{env: st.env.clone(), conds: append([]string{}, st.conds...), vals: map[ssa.Value]AV{}, mem: st.mem, writes: append([]bufWrite{}, st.writes...), notes: append([]string{}, st.notes...), effect: append([]string{}, st.effect...), nfresh: st.nfresh}
+		baseMem := map[string]AV{}
+		for k, v := range st.mem {
+			baseMem[k] = v
+		}
+		baseAssume := map[string]bool{}
+		for k, v := range st.assume {
+			baseAssume[k] = v
+		}
+		base := &lpath{assume: baseAssume, env: st.env.clone(), conds: append([]string{}, st.conds...), vals: map[ssa.Value]AV{}, mem: baseMem, writes: append([]bufWrite{}, st.writes...), notes: append([]string{}, st.notes...), effect: append([]string{}, st.effect...), nfresh: st.nfresh}
 		res := sub.run(callee, args, base)
 		if len(res) == 1 {
 			r := res[0]
 			st.env, st.conds, st.writes, st.notes, st.effect, st.nfresh = r.env, r.conds, r.writes, r.notes, r.effect, r.nfresh
+			st.mem, st.assume = r.mem, r.assume
 			if r.ret != nil {
 				st.vals[call] = r.ret
 			}
@@ -1222,6 +1494,7 @@ func (li *layoutInterp) execCall(fn *ssa.Function, st *lpath, call *ssa.Call) []
 			for _, r := range res {
 				ns := st.clone()
 				ns.env, ns.conds, ns.writes, ns.notes, ns.effect, ns.nfresh = r.env, r.conds, r.writes, r.notes, r.effect, r.nfresh
+				ns.mem, ns.assume = r.mem, r.assume
 				if r.ret != nil {
 					ns.vals[call] = r.ret
 				}
@@ -1603,4 +1876,83 @@ func (li *layoutInterp) globalConst(g *ssa.Global) (int64, bool) {
 		}
 	}
 	return 0, false
+}
+
+// elemKey: memory key of element idx of a tracked temporary (fresh slice or
+// local array); ok=false when the index is not constant.
+func elemKey(sl avSlice, idx *Lin) (string, bool) {
+	if idx == nil || sl.off == nil {
+		return "", false
+	}
+	k, ok := sl.off.Add(idx).IsConst()
+	if !ok {
+		return "", false
+	}
+	switch {
+	case strings.HasPrefix(sl.region, "arr:"):
+		return strings.TrimPrefix(sl.region, "arr:") + fmt.Sprintf("[%d]", k), true
+	case strings.HasPrefix(sl.region, "fresh#"):
+		return sl.region + fmt.Sprintf("[%d]", k), true
+	}
+	return "", false
+}
+
+// readElem returns the bits of element idx of a slice value.
+func (li *layoutInterp) readElem(st *lpath, sl avSlice, idx *Lin) BV {
+	if sl.region == "buf" {
+		bv, _ := li.readByte(st, sl.off.Add(idx))
+		return bv
+	}
+	if key, ok := elemKey(sl, idx); ok {
+		if v, has := st.mem[key].(avInt); has {
+			return v.bv
+		}
+		if strings.HasPrefix(sl.region, "fresh#") {
+			return bvConst(0, 8)
+		}
+	}
+	nm := sl.name
+	if nm == "" {
+		nm = sl.region
+	}
+	o := "?"
+	if sl.off != nil && idx != nil {
+		o = sl.off.Add(idx).String()
+	}
+	return bvSrc(nm+"["+o+"]", 8)
+}
+
+// sliceBytes returns the final content of a returned temporary slice of
+// constant length.
+func (li *layoutInterp) sliceBytes(st *lpath, sl avSlice) ([]BV, bool) {
+	n, ok := sl.len.IsConst()
+	if !ok || n < 0 || n > 64 {
+		return nil, false
+	}
+	var out []BV
+	for i := int64(0); i < n; i++ {
+		out = append(out, li.readElem(st, sl, linConst(i)).resize(8, false))
+	}
+	return out, true
+}
+
+// nilness: 1 the value is nil, 0 it is certainly not nil, -1 unknown.
+func nilness(v AV) int {
+	switch x := v.(type) {
+	case avOpaque:
+		if x.desc == "nil" {
+			return 1
+		}
+		if strings.HasPrefix(x.desc, "errors.New") || strings.HasPrefix(x.desc, "fmt.Errorf") || x.desc == "err" {
+			return 0
+		}
+	case avIface:
+		if x.inner != nil {
+			return 0
+		}
+		if strings.HasPrefix(x.path, "global:Err") || strings.HasPrefix(x.path, "global:err") {
+			return 0 // package-level error values (initialised once with errors.New; C19 checks nobody writes them)
+		}
+	}
+	return -1
 }
